@@ -146,6 +146,32 @@ err_t belsGenM0(octet m0[], size_t len, gen_i ang, void* ang_state)
 	return reps != SIZE_MAX ? ERR_OK : ERR_BAD_ANG;
 }
 
+/*
+*******************************************************************************
+Проверка набора открытых ключей: ключи m0, [count]mi корректны и различны
+*******************************************************************************
+*/
+
+static err_t belsValKeys(const octet m0[], const octet mi[], size_t count,
+	size_t len)
+{
+	size_t i, j;
+	err_t code;
+	code = belsValM(m0, len);
+	ERR_CALL_CHECK(code);
+	for (i = 0; i < count; ++i)
+	{
+		code = belsValM(mi + i * len, len);
+		ERR_CALL_CHECK(code);
+		if (memEq(mi + i * len, m0, len))
+			return ERR_BAD_PUBKEY;
+		for (j = 0; j < i; ++j)
+			if (memEq(mi + i * len, mi + j * len, len))
+				return ERR_BAD_PUBKEY;
+	}
+	return ERR_OK;
+}
+
 err_t belsGenMi(octet mi[], size_t len, const octet m0[], gen_i ang, 
 	void* ang_state)
 {
@@ -163,7 +189,8 @@ err_t belsGenMi(octet mi[], size_t len, const octet m0[], gen_i ang,
 	if ((len != 16 && len != 24 && len != 32) || 
 		!memIsValid(m0, len) || !memIsValid(mi, len))
 		return ERR_BAD_INPUT;
-	EXPECT(belsValM(m0, len) == ERR_OK);
+	if (belsValM(m0, len) != ERR_OK)
+		return ERR_BAD_PUBKEY;
 	// создать состояние
 	n = W_OF_O(len);
 	state = blobCreate(O_OF_W(2 * n + 2) + ppMinPolyMod_deep(n + 1));
@@ -216,7 +243,8 @@ err_t belsGenMid(octet mid[], size_t len, const octet m0[], const octet id[],
 		!memIsValid(m0, len) || !memIsValid(mid, len) || 
 		!memIsValid(id, id_len))
 		return ERR_BAD_INPUT;
-	EXPECT(belsValM(m0, len) == ERR_OK);
+	if (belsValM(m0, len) != ERR_OK)
+		return ERR_BAD_PUBKEY;
 	// создать состояние
 	n = W_OF_O(len);
 	state = blobCreate(O_OF_W(2 * n + 2) + 32 + O_PER_W +
@@ -330,7 +358,10 @@ err_t belsShare(octet si[], size_t count, size_t threshold, size_t len,
 		!memIsValid(s, len) || !memIsValid(m0, len) || 
 		!memIsValid(mi, len * count) || !memIsValid(si, count * len))
 		return ERR_BAD_INPUT;
-	EXPECT(belsValM(m0, len) == ERR_OK);
+	{
+		err_t code = belsValKeys(m0, mi, count, len);
+		ERR_CALL_CHECK(code);
+	}
 	// создать состояние
 	n = W_OF_O(len);
 	state = blobCreate(O_OF_W(2 * threshold * n + 1) + 
@@ -357,7 +388,6 @@ err_t belsShare(octet si[], size_t count, size_t threshold, size_t len,
 	for (i = 0; i < count; ++i)
 	{
 		// f(x) <- x^l + mi(x)
-		EXPECT(belsValM(mi + i * len, len) == ERR_OK);
 		wwFrom(f, mi + i * len, len);
 		f[n] = 1;
 		// si(x) <- c(x) mod f(x)
@@ -474,7 +504,10 @@ err_t belsRecover(octet s[], size_t count, size_t len, const octet si[],
 		!memIsValid(si, count * len) || !memIsValid(m0, len) || 
 		!memIsValid(mi, len * count) || !memIsValid(s, len))
 		return ERR_BAD_INPUT;
-	EXPECT(belsValM(m0, len) == ERR_OK);
+	{
+		err_t code = belsValKeys(m0, mi, count, len);
+		ERR_CALL_CHECK(code);
+	}
 	// расчет глубины стека
 	n = W_OF_O(len);
 	deep = utilMax(2, 
